@@ -71,6 +71,7 @@ class SysTables:
         self.inputs = {}
         self.dialects = {}
         self.calls = {}
+        self.args = {}
         self.twins = {}
         self.codeccalls = {}
         self.behaviours = []
@@ -82,8 +83,11 @@ class SysTables:
             elif p[0] == "dialect":
                 self.dialects[p[1]] = p[2]
             elif p[0] == "call":
-                self.calls[(p[1], p[2], p[3])] = norm_err(p[4]) if p[2] == "from" else p[4]
-                self.twins[(p[1], p[2], p[3])] = p[5]
+                key = (p[1], p[2], p[3], p[6], p[7])
+                self.calls[key] = norm_err(p[4]) if p[2] == "from" else p[4]
+                self.args[key] = p[8]
+                if p[5]:
+                    self.twins[key] = p[5]
             elif p[0] == "codeccall":
                 self.codeccalls[(p[1], p[2], p[3])] = norm_err(p[4]) if p[2] == "from" else p[4]
             elif p[0] == "beh":
@@ -112,17 +116,43 @@ class World:
         from harness.terms import concretize_type
         return concretize_type(self.t.classes[n], self.reg)
 
-    def call(self, n, direction, d):
+    def call(self, n, direction, d, f="dict", kw="none"):
+        """-> observed result term: wire/document term for 'to' (format documents are parsed with the format's own library;
+        with kw == 'newline' the term is ["nl", doc, raw ends with newline]), ["ok", value] | ["err", ..] for 'from'"""
         from harness.real import abstract_exception
         from harness.terms import abstract_value, concretize_value
         cls = self.reg.by_name[n]
-        kw = {} if d == "none" else {"dialect": self.dialect(d)}
+        kwargs = {} if d == "none" else {"dialect": self.dialect(d)}
+        if kw == "omit_none":
+            kwargs["omit_none"] = True
+        elif kw == "by_alias":
+            kwargs["by_alias"] = True
         try:
             if direction == "to":
                 x = concretize_value(self.t.values[n], self.reg)
-                return abstract_value(x.to_dict(**kw), self.reg)
-            data = concretize_value(self.t.inputs[n], self.reg)
-            return ["ok", abstract_value(cls.from_dict(data, **kw), self.reg)]
+                if f == "dict":
+                    return abstract_value(x.to_dict(**kwargs), self.reg)
+                if f == "msgpack":
+                    import msgpack
+                    return abstract_value(msgpack.unpackb(x.to_msgpack(**kwargs), raw=False), self.reg)
+                if f == "orjson":
+                    import orjson
+                    if kw == "newline":
+                        kwargs["orjson_options"] = orjson.OPT_APPEND_NEWLINE
+                    raw = x.to_jsonb(**kwargs)
+                    doc = abstract_value(orjson.loads(raw), self.reg)
+                    return ["nl", doc, raw.endswith(b"\n")] if kw == "newline" else doc
+                raise ValueError(f)
+            arg = concretize_value(self.t.args[(n, direction, d, f, kw)], self.reg)
+            if f == "dict":
+                return ["ok", abstract_value(cls.from_dict(arg, **kwargs), self.reg)]
+            if f == "msgpack":
+                import msgpack
+                return ["ok", abstract_value(cls.from_msgpack(msgpack.packb(arg, use_bin_type=True), **kwargs), self.reg)]
+            if f == "orjson":
+                import orjson
+                return ["ok", abstract_value(cls.from_json(orjson.dumps(arg), **kwargs), self.reg)]
+            raise ValueError(f)
         except RecursionError:
             return ["err", ["other", "RecursionError", ""]]
         except Exception as e:  # noqa: BLE001
@@ -156,6 +186,15 @@ class World:
 _TABLES = None
 
 
+def sys_match(exp, act, direction, kw):
+    from harness.terms import canon, eqform, wire_match
+    if direction != "to":
+        return terms_equal(exp, act)
+    if kw == "newline":
+        return isinstance(act, list) and len(act) == 3 and act[0] == "nl" and act[2] is True and wire_match(canon(exp), act[1])
+    return wire_match(canon(exp), act)
+
+
 def _run_sys(beh):
     from harness.terms import canon, wire_match
     t = _TABLES
@@ -169,17 +208,18 @@ def _run_sys(beh):
                 w.define(ev[1])
                 continue
             n, direction, d = ev[1], ev[2], ev[3]
+            f, kw = (ev[4], ev[5]) if kind == "Call" else ("dict", "none")
             if kind == "CreateCodec":
                 if not w.create_codec(n, direction, d):
                     out["drift"].append(f"CreateCodec({n},{direction},{d}) changed the class namespace")
                 continue
             if kind == "Call":
-                exp = t.calls[(n, direction, d)]
-                act = w.call(n, direction, d)
+                exp = t.calls[(n, direction, d, f, kw)]
+                act = w.call(n, direction, d, f, kw)
             else:
                 exp = t.codeccalls[(n, direction, d)]
                 act = w.codec_call(n, direction, d)
-            ok = wire_match(canon(exp), act) if direction == "to" else terms_equal(exp, act)
+            ok = sys_match(exp, act, direction, kw)
             if not ok:
                 out["mism"].append({"clause": "history-dependent" if idx > 1 else "outcome", "step": idx, "history": beh[: idx + 1],
                                     "event": ev, "expected": exp, "actual": act})
@@ -194,7 +234,7 @@ def _run_twin(key):
     from harness.real import abstract_exception
     from harness.terms import Registry, abstract_value, canon, concretize_type, concretize_value, wire_match
     t = _TABLES
-    n, direction, d = key
+    n, direction, d, f, kw = key
     reg = Registry()
     try:
         cls = concretize_type(t.twins[key], reg)
